@@ -2,6 +2,18 @@
 
 package store
 
+import "context"
+
+// VerifHook, when set by the conformance harness, is called at the yield points named in
+// /verif/MANIFEST.json (hooks). It may block: the harness uses it as a scheduler gate.
+var VerifHook func(ctx context.Context, point string, args ...uint64)
+
+func verifPoint(ctx context.Context, point string, args ...uint64) {
+	if h := VerifHook; h != nil {
+		h(ctx, point, args...)
+	}
+}
+
 // VerifSetDeleteParallelThreshold lowers (or restores) the range size from which DeleteRange takes
 // the parallel path, so that the conformance harness reaches it with a handful of headers.
 // It returns the previous value.
